@@ -3,7 +3,12 @@ package main
 import (
 	"crypto/ecdsa"
 	"crypto/ed25519"
+	"crypto/elliptic"
 	"crypto/x509"
+	"crypto/x509/pkix"
+	"encoding/asn1"
+	"math/big"
+	"time"
 	"encoding/pem"
 	"io/ioutil"
 	"os"
@@ -50,6 +55,26 @@ func cliFixtures(args []string) error {
 		ioutil.WriteFile(filepath.Join(dir, curve+"-cert2.pem"), chainPEM, 0600)
 		info[curve+"-leaf"] = ints(kc.certs[0].Raw)
 		info[curve+"-ca"] = ints(ca.certs[0].Raw)
+	}
+	// a leaf that carries an embedded SCT list (RFC 6962 extension 1.3.6.1.4.1.11129.2.4.2), as publicly trusted certificates do
+	{
+		key, err := ecdsa.GenerateKey(elliptic.P256(), crandReader())
+		if err != nil {
+			return err
+		}
+		sctList, _ := asn1.Marshal([]byte{0, 8, 0, 6, 's', 'c', 't', '-', 'i', 'n'})
+		tmpl := &x509.Certificate{SerialNumber: big.NewInt(424242), Subject: pkix.Name{CommonName: "verif embedded sct"}, NotBefore: time.Unix(946684800, 0), NotAfter: time.Unix(4102444800, 0),
+			DNSNames: []string{"example.com"}, KeyUsage: x509.KeyUsageDigitalSignature,
+			ExtraExtensions: []pkix.Extension{{Id: asn1.ObjectIdentifier{1, 3, 6, 1, 4, 1, 11129, 2, 4, 2}, Value: sctList}}}
+		der, err := x509.CreateCertificate(crandReader(), tmpl, tmpl, &key.PublicKey, key)
+		if err != nil {
+			return err
+		}
+		writePEM(filepath.Join(dir, "p256-sctleaf-cert1.pem"), "CERTIFICATE", der)
+		ca := newKeyCert("p256", []string{"ca.example"}, 33)
+		ioutil.WriteFile(filepath.Join(dir, "p256-sctleaf-cert2.pem"), append(pem.EncodeToMemory(&pem.Block{Type: "CERTIFICATE", Bytes: der}), pem.EncodeToMemory(&pem.Block{Type: "CERTIFICATE", Bytes: ca.certs[0].Raw})...), 0600)
+		info["p256-sctleaf-leaf"] = ints(der)
+		info["p256-sctleaf-ca"] = ints(ca.certs[0].Raw)
 	}
 	pub, priv, _ := ed25519.GenerateKey(crandReader())
 	p8, err := x509.MarshalPKCS8PrivateKey(priv)
